@@ -1967,6 +1967,16 @@ func (m *machine) lowerTailCall(si *ssa.Instruction) {
 	}
 
 	isAllRegs := stackSlotSize == 0
+	if !isDirectCall && isAllRegs {
+		// The indirect tail call below keeps the callee's pointer in r11, which is also the last integer argument
+		// register: when the callee's arguments occupy it, fall back to a regular call followed by a return.
+		for i := range calleeABI.Args {
+			if arg := &calleeABI.Args[i]; arg.Kind == backend.ABIArgKindReg && arg.Reg == r11VReg {
+				isAllRegs = false
+				break
+			}
+		}
+	}
 
 	switch {
 	case isDirectCall && isAllRegs:
